@@ -63,6 +63,35 @@ def cocreate_case(procs=2):
                         [{"t": "create", "d": 50}, {"t": "batchh", "parts": [part(50, 1)]}, {"t": "batchh", "parts": [part(50, 1)]}]]}
 
 
+def nsrace_case(procs=2):
+    """a batch with a new entity into d1 is held after its commit (before its core.Dataset items update) while another
+    client stores d1's meta entity with new publicNamespaces into core.Dataset"""
+    return {"kind": "gated", "gate": "nsrace", "procs": procs, "nds": 2, "groups": [], "readers": 0, "threads": [
+        [{"t": "batch", "parts": [part(1, 2)]}, {"t": "setns", "d": 2}],
+        [{"t": "setns", "d": 1}, {"t": "batch", "parts": [part(1, 1)]}]]}
+
+
+def renrace_case(procs=2):
+    """client 0 obtains a handle, client 1 renames the dataset, client 0 writes through the old handle and is held inside
+    its critical section while client 1 looks the dataset up under the new name and writes the same entity"""
+    p0 = dict(part(50, 0, False, False, True), **{"as": 51, "pnew": True})
+    p1 = dict(part(51, 0, False, False, True), pnew=False)
+    return {"kind": "gated", "gate": "renrace", "procs": procs, "nds": 1, "groups": [], "readers": 0, "watch": [51], "threads": [
+        [{"t": "create", "d": 50, "isnew": True}, {"t": "batchh", "parts": [p0], "after": [[1, 0]]}],
+        [{"t": "rename", "d": 50, "to": 51, "mode": "move", "after": [[0, 0]]}, {"t": "batch", "parts": [p1]}]]}
+
+
+def burst_case(procs=8, clients=6, rounds=16):
+    """all clients are at the same moment the first users of a brand-new namespace (stream parser) and store one URI"""
+    threads = []
+    for t in range(clients):
+        ops = []
+        for r in range(1, rounds + 1):
+            ops.append({"t": "upload", "sync": r, "parts": [dict(part(1, 0), pnew="observed", n=1)]})
+        threads.append(ops)
+    return {"kind": "gated", "gate": "", "procs": procs, "nds": 1, "groups": [], "readers": 0, "threads": threads}
+
+
 def txnfail_case():
     """transactions naming an existing and a missing dataset, each followed by a write to the existing one"""
     ops = []
@@ -103,7 +132,7 @@ def small_mix():
 
 def witness_cases():
     return [forced_case(2), forced_case(2, TWIN_UP, TWIN_LO, 1), coretxn_case(1), coretxn_case(0), small_mix(), race_case(2), race_case(1), cocreate_case(2), cocreate_case(8),
-            txnfail_case()]
+            txnfail_case(), nsrace_case(2), renrace_case(2), burst_case(8), burst_case(2, 4, 8)]
 
 
 def corpus_cases():
@@ -156,7 +185,9 @@ def gen_mix(rng, big=False):
                 ps = [part(d, rng.range(0, 1), True), part(MISSING, 1)]
                 rng.shuffle(ps)
                 ops.append({"t": "txnfail", "parts": ps})
-            elif r < 64 and late:
+            elif r < 61:
+                ops.append({"t": "setns", "d": rng.range(1, nds)})
+            elif r < 65 and late:
                 d = rng.choice(late)
                 if d not in mine:
                     ops.append({"t": "create", "d": d})
@@ -250,16 +281,23 @@ def nl(xs):
     return vlib.coq_list(["%d%%N" % x for x in xs])
 
 
-def part_term(p, k):
-    n = p["new"] + (1 if p.get("upd") else 0) + (1 if p.get("mrg") else 0) + (1 if p.get("hot") else 0)
-    return "{| p_ds := %s; p_ms := %s; p_new := %s |}" % (lk(p["d"]), nl([k] * n), vlib.coq_bool(p["new"] > 0))
+def part_term(p, k, evs=()):
+    n = p.get("n", 0) + p["new"] + (1 if p.get("upd") else 0) + (1 if p.get("mrg") else 0) + (1 if p.get("hot") else 0)
+    pnew = p["new"] > 0
+    if p.get("pnew") == "observed":   # who is the first writer of a URI is decided by the schedule: the one that updates the counter
+        pnew = any(kind == 1 and l == CORE for kind, l in evs)
+    elif "pnew" in p:
+        pnew = bool(p["pnew"])
+    return "{| p_ds := %s; p_ms := %s; p_new := %s |}" % (lk(p.get("as") or p["d"]), nl([k] * n), vlib.coq_bool(pnew))
 
 
 def op_term(op, k, evs):
     """evs = the events of this op: (kind, lock)"""
     t = op["t"]
-    if t in ("batch", "batchh"):
-        return "(OBatch %s)" % part_term(op["parts"][0], k)
+    if t in ("batch", "batchh", "upload"):
+        return "(OBatch %s)" % part_term(op["parts"][0], k, evs)
+    if t == "setns":  # a batch into core.Dataset: the meta entity of dataset d
+        return "(OBatch {| p_ds := LCore; p_ms := %s; p_new := false |})" % nl([op["d"]])
     if t == "txnfail":
         locked = []
         for kind, l in evs:
@@ -324,9 +362,13 @@ def run_term(c, r, kbase):
             snaps.append("(%s, %d%%N)" % (lk(d), n))
         else:
             bad += 1
-    bad += r.get("torn", 0) + r.get("attorn", 0)
+    bad += r.get("torn", 0) + r.get("attorn", 0) + r.get("dups", 0)
     times = ["(%s, %s)" % (lk(int(d)), nl(ts)) for d, ts in sorted((r.get("times") or {}).items(), key=lambda x: int(x[0]))]
-    looks = ["(%d%%N, %d%%N)" % (max(a, 0), b if b >= 0 else 999999999) for _, a, b in (r.get("looks") or [])]
+    looks = []
+    for lo in (r.get("looks") or []):
+        a = max(lo[1], 0)
+        for b in lo[2:]:   # scoped lookup, listing
+            looks.append("(%d%%N, %d%%N)" % (a, b if b >= 0 else 999999999))
     return ("{| r_ops := %s; r_outcome := %d%%N; r_trace := %s; r_errs := %s; r_feeds := %s; r_snaps := %s; r_times := %s; r_lookups := %s; r_bad := %d%%N |}" % (
         vlib.coq_list(ops), OUT.get(r.get("outcome"), 2), vlib.coq_list(trace), errs_t, vlib.coq_list(feeds),
         vlib.coq_list(snaps), vlib.coq_list(times), vlib.coq_list(looks), bad))
